@@ -7,7 +7,7 @@ RULE = ("every Deserialize type of both crates and the public element codecs ([G
         "exit status): every honest encoding with every length prefix set to {0, n-1, n+1, 2^32, 2^60, 2^64-1}, with and "
         "without enough extra bytes to feed one more element; truncation at every atom boundary and one byte before / "
         "after; extension; single atoms replaced by random bytes; random strings; Vec<G> prefixes up to 2^64-1 on short "
-        "inputs. Non-trivial = every mutated or random input; distinct = distinct (type, input digest).")
+        "inputs and on inputs holding 1024 / 1025 (thorough: up to 2049) genuine elements, i.e. at and beyond the preallocation cap. Non-trivial = every mutated or random input; distinct = distinct (type, input digest).")
 TRUSTED = ["theorems C16_* about the decoder logic as modelled in Model/Wire.v",
            "modelled dependency behaviour (validated here, not proved): ArrayVec push/try_push on a full vector, bincode "
            "SeqAccess yielding exactly the announced number of elements with EOF errors, Vec::with_capacity(n) requesting n "
@@ -82,29 +82,48 @@ def run(run, h):
                 one(run, w, batch, name, "vec prefix=%d elements=%d" % (v, k), le8(v) + body, coq)
         for ln in (0, 7, 8, 40, 100):
             one(run, w, batch, name, "random", rng.randbytes(ln).hex(), coq)
+        # long inputs: the preallocation cap (1024 elements) is reached and passed with GENUINE elements present, under an
+        # honest and under an overstated length prefix - growth after the cap must still follow the elements actually
+        # decoded, not the announced count
+        grp = {"s": 0, "g1": 1, "g2": 2}[elem[0][0]]
+        pool = [sc(rand_nz(rng)) for _ in range(8)] if grp == 0 else pts.many(grp, [rand_nz(rng) for _ in range(8)])
+        for k in ((1024, 1025) if run.tier == "quick" else (1023, 1024, 1025, 1030, 2049)):
+            body = "".join(pool[i % 8] for i in range(k))
+            for v in (k, k + 1, k + 2 ** 20, 2 ** 32, 2 ** 60, 2 ** 64 - 1):
+                kind = "long vec prefix=%s elements=%d" % ("n" if v == k else ("n+%d" % (v - k) if v < 2 ** 32 else str(v)), k)
+                status = one(run, w, batch, name, kind, le8(v) + body, None)
+                if coq and k in (1024, 1025) and v in (k, k + 1, 2 ** 60) and status is not None:
+                    def cmp(rr, status=status, kind=kind, name=name):
+                        ok = rr[0] != 9 and ((rr[0] == 1) == (status == "ok")) and rr[1] <= 1024 and (rr[0] != 1 or rr[2:] == [0, 1])
+                        run.check_corr("corr.C16.decode_outcome", ok, {"type": name, "mutation": kind, "model": rr, "impl": status})
+                    batch.add("run_codec_long %s %d %s %d" % (coq, v, "[" + "; ".join(zlist(list(bytes.fromhex(x))) for x in pool) + "]", k), cmp)
     batch.flush()
     w.close()
 
 
 def one(run, w, batch, name, kind, data, cexpr):
-    case = {"type": name, "mutation": kind, "length": len(data) // 2, "script": [["decode_track", name, data if len(data) < 4000 else data[:4000] + "..."]]}
+    short = data if len(data) < 4000 else data[:4000] + "..."
+    case = {"type": name, "mutation": kind, "length": len(data) // 2, "script": [["decode_track", name, short]]}
+    full = {"script": [["decode_track", name, data if data else "-"]]}   # attached to failing cases only: the exact replay
     try:
         st, toks = w.raw("decode_track", name, data if data else "-")
     except HarnessDied as e:
         run.case(case)
         run.count("ABORT")
-        run.check_monitor("decoding_never_aborts_the_process", False, dict(case, abort=str(e)[:200], input=data[:400]))
+        run.check_monitor("decoding_never_aborts_the_process", False, dict(case, abort=str(e)[:200], **full))
         return
     run.case(case)
     run.count(kind.split("=")[0].split("@")[0])
-    run.check_monitor("decoding_never_panics", st != "panic", dict(case, panic=toks[0] if st == "panic" else None, input=data[:400]))
+    run.check_monitor("decoding_never_panics", st != "panic", dict(case, panic=toks[0] if st == "panic" else None, **full))
     if st != "ok":
-        return
+        return None
     status, alloc = toks[0], int(toks[1])
     run.count("outcome " + status)
-    run.check_monitor("allocation_proportional_to_input", alloc <= 64 * (len(data) // 2) + (1 << 20), dict(case, largest_allocation=alloc))
+    run.check_monitor("allocation_proportional_to_input", alloc <= 64 * (len(data) // 2) + (1 << 20),
+                      dict(case, largest_allocation=alloc, **full))
     if cexpr:
         def cmp(rr, case=case, status=status):
             ok = rr[0] != 9 and ((rr[0] == 1) == (status == "ok")) and (rr[0] == 9 or rr[1] <= 1024)
             run.check_corr("corr.C16.decode_outcome", ok, dict(case, model=rr[:3], impl=status))
         batch.add("run_codec %s %s" % (cexpr, zlist(list(bytes.fromhex(data)))), cmp)
+    return status
